@@ -336,6 +336,10 @@ func typeOf(mode uint32) string {
 	return "?"
 }
 
+// SkipContent names files (by base name) whose content Snapshot does not hash (large helper binaries placed in a
+// scratch tree); their metadata is still recorded.
+var SkipContent = map[string]bool{}
+
 // Snapshot walks root without following symlinks. Paths are relative, the root is ".".
 func Snapshot(root string) (map[string]Snap, error) {
 	out := map[string]Snap{}
@@ -349,12 +353,14 @@ func Snapshot(root string) (map[string]Snap, error) {
 		s := Snap{Type: typeOf(st.Mode), Mode: st.Mode & 07777, UID: st.Uid, GID: st.Gid, MTime: st.Mtim.Sec*1000000000 + st.Mtim.Nsec, Nlink: uint64(st.Nlink)}
 		switch s.Type {
 		case "file":
-			b, err := os.ReadFile(p)
-			if err != nil {
-				return err
-			}
 			s.Size = st.Size
-			s.Hash = sha256.Sum256(b)
+			if !SkipContent[filepath.Base(p)] {
+				b, err := os.ReadFile(p)
+				if err != nil {
+					return err
+				}
+				s.Hash = sha256.Sum256(b)
+			}
 		case "symlink":
 			t, err := os.Readlink(p)
 			if err != nil {
